@@ -199,51 +199,55 @@ def run_check(pid, tier, seed, replay):
 
     prop_files = list(getattr(mod, "PROP_FILES", ["PersimVerif/Props/%s.lean" % pid]))
     generated = hasattr(mod, "pre_build")
-    if generated:
-        mod.pre_build(ctx)              # translator: regenerate Lean from PERSIM_ROOT's source
 
-    # --- 2. build
-    rc, out = build(["persim_model"])
-    if rc != 0:
-        raise HarnessError("model driver does not build:\n" + out[-4000:])
-    rc, out = build([module_of(f) for f in prop_files])
-    broken = []
-    if rc != 0:
-        if not generated:
-            raise HarnessError("property theorems do not build (no generated input involved):\n" + out[-4000:])
-        broken = sorted(set(re.findall(r"error: ([^\n]*)", out)))[:20] or ["lake build failed"]
-        print("proof obligations no longer check:\n" + out[-3000:], flush=True)
+    # --- 1.-3. translator output, build and audit, atomically under the file lock: two checks running at the same
+    # time (possibly with different PERSIM_ROOT) must not see each other's Generated/*.lean
+    os.makedirs(os.path.join(LEAN, ".lake"), exist_ok=True)
+    with Lock(os.path.join(LEAN, ".lake", "verif.lock")):
+        if generated:
+            mod.pre_build(ctx)          # translator: regenerate Lean from PERSIM_ROOT's source
+            prop_files = list(getattr(mod, "PROP_FILES", prop_files))
+        rc, out = sh(["lake", "build", "persim_model"], cwd=LEAN, timeout=3000)
+        if rc != 0:
+            raise HarnessError("model driver does not build:\n" + out[-4000:])
+        rc, out = sh(["lake", "build"] + [module_of(f) for f in prop_files], cwd=LEAN, timeout=3000)
+        broken = []
+        if rc != 0:
+            if not generated:
+                raise HarnessError("property theorems do not build (no generated input involved):\n" + out[-4000:])
+            broken = sorted(set(re.findall(r"error: ([^\n]*)", out)))[:20] or ["lake build failed"]
+            print("proof obligations no longer check:\n" + out[-3000:], flush=True)
 
-    # --- 3. audit
-    hits = forbidden_hits()
-    if hits:
-        raise HarnessError("forbidden tokens in the Lean sources: %s" % hits[:10])
-    names, ax, (arc, aout) = ([], {}, (0, ""))
-    if not broken:
-        names, ax, (arc, aout) = audit_axioms(pid, prop_files)
-        bad = {n: sorted(a - ALLOWED_AXIOMS) for n, a in ax.items() if a - ALLOWED_AXIOMS}
-        missing = [n for n in names if n not in ax]
-        if bad:
-            raise HarnessError("theorems depend on axioms outside the allowed set: %s" % bad)
-        if missing or arc != 0:
-            raise HarnessError("axiom audit incomplete (%s):\n%s" % (missing[:5], aout[-3000:]))
-    else:
-        for rel in prop_files:
-            names += theorems_of(os.path.join(LEAN, rel))
-    proof = {
-        "obligations": len(names),
-        "discharged": 0 if broken else len(names),
-        "checker_cmd": "cd lean && lake build %s && lake env lean .lake/audit/%s.lean  (#print axioms of every theorem)"
-                       % (" ".join(module_of(f) for f in prop_files), pid),
-        "theorems": names,
-        "axioms_seen": sorted(set().union(*ax.values())) if ax else [],
-        "broken": broken,
-    }
-    if tier == "thorough" and not broken and os.environ.get("VERIF_SKIP_LEANCHECKER") != "1":
-        lrc, lout = leancheck([module_of(f) for f in prop_files])
-        proof["leanchecker"] = {"rc": lrc, "tail": lout[-300:]}
-        if lrc != 0:
-            raise HarnessError("leanchecker rejected the compiled theorems:\n" + lout[-3000:])
+        # --- 3. audit
+        hits = forbidden_hits()
+        if hits:
+            raise HarnessError("forbidden tokens in the Lean sources: %s" % hits[:10])
+        names, ax, (arc, aout) = ([], {}, (0, ""))
+        if not broken:
+            names, ax, (arc, aout) = audit_axioms(pid, prop_files)
+            bad = {n: sorted(a - ALLOWED_AXIOMS) for n, a in ax.items() if a - ALLOWED_AXIOMS}
+            missing = [n for n in names if n not in ax]
+            if bad:
+                raise HarnessError("theorems depend on axioms outside the allowed set: %s" % bad)
+            if missing or arc != 0:
+                raise HarnessError("axiom audit incomplete (%s):\n%s" % (missing[:5], aout[-3000:]))
+        else:
+            for rel in prop_files:
+                names += theorems_of(os.path.join(LEAN, rel))
+        proof = {
+            "obligations": len(names),
+            "discharged": 0 if broken else len(names),
+            "checker_cmd": "cd lean && lake build %s && lake env lean .lake/audit/%s.lean  (#print axioms of every theorem)"
+                           % (" ".join(module_of(f) for f in prop_files), pid),
+            "theorems": names,
+            "axioms_seen": sorted(set().union(*ax.values())) if ax else [],
+            "broken": broken,
+        }
+        if tier == "thorough" and not broken and os.environ.get("VERIF_SKIP_LEANCHECKER") != "1":
+            lrc, lout = leancheck([module_of(f) for f in prop_files])
+            proof["leanchecker"] = {"rc": lrc, "tail": lout[-300:]}
+            if lrc != 0:
+                raise HarnessError("leanchecker rejected the compiled theorems:\n" + lout[-3000:])
 
     # --- 4./5. correspondence, [T] streams, known findings
     common.import_persim()
